@@ -540,7 +540,10 @@ class Run:
         files = [f for f in self.hash_files if os.path.exists(f)]
         n = 0
         if files:
-            p = subprocess.run("cat %s | sort -u | wc -l" % " ".join(files), shell=True, capture_output=True, text=True)
+            lst = os.path.join(self.work, "hashfiles.lst")
+            with open(lst, "wb") as f:
+                f.write(b"\0".join(x.encode() for x in files))
+            p = subprocess.run("sort -u --files0-from=%s | wc -l" % lst, shell=True, capture_output=True, text=True)
             n = int(p.stdout.strip() or 0)
         return n + self.bulk_distinct
 
